@@ -419,10 +419,72 @@ def flow_oracle(case, obs):
 
 
 # =========================================================================== framework API
+# ---- sugar family: the spellings that wire triggers (`>>`, `<<`, with nodes, macros, tuples, channels) -------------
+from pyiron_workflow.nodes.macro import as_macro_node as _as_macro_node  # noqa: E402
+
+
+@_as_macro_node("out")
+def SugarMacro(self, x):
+    self.p = nodes.Lin1(tag=-1, k=1, a=x)
+    self.q = nodes.Lin1(tag=-2, k=2, a=self.p)
+    return self.q
+
+
+SUGAR_KINDS = ["fn", "macro"]
+
+
+def gen_sugar(rng):
+    n = rng.choice([1, 1, 2, 3])
+    return {"fam": "sugar", "op": rng.choice(["lshift", "lshift", "rshift"]),
+            "operands": [rng.choice(SUGAR_KINDS) for _ in range(n)],
+            "wrap": rng.choice(["tuple", "bare"]) if n == 1 else "tuple",
+            "as_channel": rng.random() < 0.2, "target": rng.choice(SUGAR_KINDS)}
+
+
+def run_sugar(case):
+    from pyiron_workflow import Workflow
+    wf = Workflow("s", automate_execution=False)
+    mk = lambda kind, lab: (nodes.Lin1(label=lab, tag=0, k=0, a=1) if kind == "fn" else SugarMacro(label=lab, x=1))   # noqa: E731
+    ups = []
+    for i, kind in enumerate(case["operands"]):
+        u = mk(kind, f"u{i}")
+        wf.add_child(u)
+        ups.append(u)
+    t = mk(case["target"], "t")
+    wf.add_child(t)
+    if case["op"] == "lshift":
+        objs = [u.signals.output.ran for u in ups] if case["as_channel"] else ups
+        arg = objs[0] if case["wrap"] == "bare" else tuple(objs)
+        (t.signals.input.accumulate_and_run if case["as_channel"] else t).__lshift__(arg)
+        got = sorted([c.owner.full_label, c.label] for c in t.signals.input.accumulate_and_run.connections)
+        other = len(t.signals.input.run.connections)
+    else:
+        # u0 >> u1 >> ... >> t
+        chain = ups + [t]
+        for a, b in zip(chain, chain[1:]):
+            a >> b
+        got = sorted([c.owner.full_label, c.label] for c in t.signals.input.run.connections)
+        other = len(t.signals.input.accumulate_and_run.connections)
+    return {"got": got, "other": other, "ups": [u.full_label for u in ups]}
+
+
+def sugar_oracle(case, o):
+    if not isinstance(o, dict):
+        return f"crash: {o}"
+    exp = sorted([u, "ran"] for u in (o["ups"] if case["op"] == "lshift" else o["ups"][-1:]))
+    if o["got"] != exp:
+        return (f"sugar: `{'<<' if case['op'] == 'lshift' else '>>'}` wired the trigger to {o['got']}, the operands' own "
+                f"completion signals are {exp}")
+    if o["other"]:
+        return "sugar: the other trigger flavour got connections too"
+    return None
+
+
 def generate(ctx):
     rng = ctx.rng
     out = [gen_trig(rng, allow_clash=(rng.random() < 0.15)) for _ in range(ctx.n(500, 6000))]
     out += [gen_flow(rng) for _ in range(ctx.n(300, 4000))]
+    out += [gen_sugar(rng) for _ in range(ctx.n(40, 300))]
     if not ctx.quick:
         out += enumerate_trig()
     return out
@@ -448,10 +510,14 @@ def corpus(ctx):
 
 
 def run_impl(case):
+    if case["fam"] == "sugar":
+        return run_sugar(case)
     return run_trig(case) if case["fam"] == "trig" else run_flow(case)
 
 
 def model_term(case):
+    if case["fam"] == "sugar":
+        return None         # wiring sugar: oracle only (what gets wired is then covered by the trig/flow models)
     return trig_term(case) if case["fam"] == "trig" else flow_term(case)
 
 
@@ -460,6 +526,8 @@ def model_view(case, obs):
 
 
 def oracle(case, obs):
+    if case["fam"] == "sugar":
+        return sugar_oracle(case, obs)
     return trig_oracle(case, obs) if case["fam"] == "trig" else flow_oracle(case, obs)
 
 
@@ -470,6 +538,8 @@ def known(case, obs, verdict):
 
 
 def nontrivial(case, obs):
+    if case["fam"] == "sugar":
+        return "macro" in case["operands"]
     if case["fam"] == "trig":
         return (isinstance(obs, list) and obs and isinstance(obs[0], list) and any(f for f, n in obs[0])
                 and sum(1 for o in case["ops"] if o[0] == "connect") >= 2)
@@ -481,6 +551,8 @@ def key(case):
 
 
 def shrink_candidates(case):
+    if case["fam"] == "sugar":
+        return
     if case["fam"] == "trig":
         ops = case["ops"]
         for i in range(len(ops)):
@@ -498,7 +570,7 @@ def shrink_candidates(case):
 
 
 def distribution(results):
-    d = {"trig": 0, "flow": 0, "trig_fires": 0, "flow_runs_total": 0, "flow_cache_hits": 0, "flow_start_refused": 0,
+    d = {"trig": 0, "flow": 0, "sugar": 0, "trig_fires": 0, "flow_runs_total": 0, "flow_cache_hits": 0, "flow_start_refused": 0,
          "flow_with_errors": 0, "flow_loops": 0}
     for c, enc, v, o in results:
         d[c["fam"]] += 1
